@@ -76,6 +76,10 @@ CHECKS.update({
    technique="TLA+ scanner specification + TLC enumeration of tapes + replay on the real parser; insertion / re-layout experiments"),
 })
 
+TY_ORACLE = (" Second, independent specification: Typing.tla is the type system as a recursive checker Check(prog) over the node table of the PARSED program; TLC validates the "
+             "verdict log of the real parser + Typecheck (TypingConf.tla, VerdictOK) on every closed program of the corpora (repository examples, probe and directed corpora, "
+             "generated interacting programs and their ill-typed variants under all naming schemes, annotation-pair programs) and on single-token mutants of them; a wrongly "
+             "accepted program is attributed to C05 / C06 / C07 by re-evaluating Check without the substructural discipline / without the declaration of independence.")
 GEN_NOTE = ("Trusted: TLC; the renderer tools/gen.py (pre-order rule list -> Grits text); the side conditions in Gen.tla that make a mutant underivable. "
             "Bounded: two fixed type families, <= 4 processes, <= 2 functions, <= 12 rule applications per declaration, seeded -simulate sampling.")
 CHECKS.update({
@@ -83,18 +87,18 @@ CHECKS.update({
    text="Gen.tla makes typing derivations of the adjoint semi-axiomatic system the behaviours of a state machine (one action per typing rule, exact "
         "context splitting, fresh binders); its Mut actions apply one edit that breaks the substructural discipline (unused / twice-used channel, drop "
         "of a non-weakenable, split of a non-contractable, implicit weakening, equal or shadowing binders, multi-name provider of a non-contractable "
-        "process). The real Typecheck must reject every such program; the verdict log is compared with the expectation the specification assigns.",
-   note=GEN_NOTE, technique="TLA+ typing-derivation generator with mutation actions (TLC -simulate) + verdict conformance of the real typechecker"),
+        "process). The real Typecheck must reject every such program; the verdict log is compared with the expectation the specification assigns." + TY_ORACLE,
+   note=GEN_NOTE, technique="TLA+ typing-derivation generator with mutation actions (TLC -simulate) + TLA+ type system as recursive checker (Typing.tla) with TLC validation of the real verdict log"),
  "C06": dict(cat="model_checking", design="DESIGN.md 5 C06", engine="Gen",
    text="Gen.tla maintains the declaration of independence (GoalsIndependent is an invariant TLC checks on every generated goal) and its weaker-dep "
         "mutation raises a provider's mode above a channel it uses at function and process declarations; the real Typecheck must reject these. Shift "
-        "legality and mode order are covered by C10 / C17.",
-   note=GEN_NOTE, technique="TLA+ typing-derivation generator (independence invariant) + mutation + verdict conformance"),
+        "legality and mode order are covered by C10 / C17." + TY_ORACLE,
+   note=GEN_NOTE, technique="TLA+ typing-derivation generator (independence invariant) + mutation + Typing.tla / Indep.tla verdict conformance checked by TLC"),
  "C07": dict(cat="model_checking", design="DESIGN.md 5 C07", engine="Gen",
    text="Both directions on the generated fragment: every complete behaviour of Gen.tla is a derivable program and must be accepted; every C07-class "
         "mutant (payload/continuation exchanged, wrong or foreign label, missing / duplicated branch, arity, close on a client) has no derivation and "
-        "must be rejected.",
-   note=GEN_NOTE, technique="TLA+ typing-derivation generator + mutation + two-sided verdict conformance of the real typechecker"),
+        "must be rejected." + TY_ORACLE,
+   note=GEN_NOTE, technique="TLA+ typing-derivation generator + mutation + TLA+ type system as recursive checker (Typing.tla): two-sided verdict conformance of the real typechecker checked by TLC"),
 })
 
 CHECKS.update({
@@ -182,6 +186,8 @@ def main():
               "kind_free_text": "TLA+ specifications of type equality, well-formedness, mode inference and the mode order; TLC validates call logs of the real library"},
              {"name": "Gen", "path": "spec/Gen.tla", "serves_properties": ["C01", "C02", "C03", "C04", "C05", "C06", "C07", "C09", "C14"],
               "kind_free_text": "TLA+ state machine whose behaviours are typing derivations (well-typed programs) and single rule-violating mutations"},
+             {"name": "Typing", "path": "spec/Typing.tla", "serves_properties": ["C05", "C06", "C07", "C10"],
+              "kind_free_text": "TLA+ type system as a recursive checker over parsed programs; TypingConf.tla validates the verdict log of the real front end"},
              {"name": "TcProto", "path": "spec/TcProto.tla", "serves_properties": ["C09", "C19"],
               "kind_free_text": "TLA+ specification of the Typecheck caller/worker protocol (intended and as-written variants); TcProtoTrace.tla validates hook logs"},
              {"name": "Cli", "path": "spec/Cli.tla", "serves_properties": ["C18"],
